@@ -96,6 +96,36 @@ Theorem table_accepts_model : forall p b st desc f r,
 Proof. exact table_accepts_model_l. Qed.
 Print Assumptions table_accepts_model.
 
+(* The status rows hold over ARBITRARY reply content, not only the body classes
+   of the table: 202 / 204 never look at it ... *)
+Theorem silent_any_content : forall (c : content) s d f r,
+  s = 202 \/ s = 204 -> process_reply c (Some s) d f r = Ret PNone.
+Proof. exact silent_any_content_l. Qed.
+Print Assumptions silent_any_content.
+
+(* ... every status outside {200, 202, 204, 500} yields (status, description)
+   whatever the content is — malformed bytes and Fault documents included ... *)
+Theorem other_status_any_content : forall (c : content) s d f r,
+  s <> 200 -> s <> 202 -> s <> 204 -> s <> 500 ->
+  process_reply c (Some s) d f r = if f then RaiseStatus s d else RetPair s d.
+Proof. exact other_status_any_content_l. Qed.
+Print Assumptions other_status_any_content.
+
+(* ... and a 500 reply is never an ordinary return value, whatever it holds. *)
+Theorem status500_never_ordinary : forall (c : content) d f r,
+  ordinary (process_reply c (Some 500) d f r) = false.
+Proof. exact status500_never_ordinary_l. Qed.
+Print Assumptions status500_never_ordinary.
+
+(* non-vacuity of the three: a Fault document under 204, 404 and 500 *)
+Example any_content_nonvacuous :
+  let c := shape_of (BFault Env11 true true 1 7 8 9) in
+  process_reply c (Some 204) (PText 1) true false = Ret PNone /\
+  process_reply c (Some 404) (PText 1) true false = RaiseStatus 404 (PText 1) /\
+  process_reply (CMalformed 3) (Some 404) (PText 1) false true = RetPair 404 (PText 1) /\
+  process_reply c (Some 500) (PText 1) true false = RaiseWebFault 8 9.
+Proof. repeat split; reflexivity. Qed.
+
 (* non-vacuity: the table has all its rows, on concrete cells *)
 Example table_nonvacuous :
   let flt := BFault Env12 true false 0 7 8 9 in
